@@ -85,6 +85,17 @@ def extractField (fs : List Field) (name : String) : Option Field × List Field 
   | some f => (some f, fs.filter (·.name != name))
   | none => (none, fs)
 
+/-- the `fill` field of a bank definition: absent = false, `fill` alone = true, `fill = true` / `fill = false` = the literal;
+    anything else is "expected boolean literal" (finding F65, repaired: the field's presence was taken for its value) -/
+def fillValue (fill : Option Field) : Except String Bool :=
+  match fill with
+  | none => .ok false
+  | some f =>
+    match f.expr with
+    | none => .ok true
+    | some (.lit (.bool b)) => .ok b
+    | some _ => .error "expected boolean literal"
+
 mutual
 /-- `parse_expr` -/
 def parseExpr : Nat → Nat → Src → PR
@@ -577,15 +588,7 @@ def parseBankdef : Nat → Src → Except String (AstNode × Src)
           let (outp, fs) := extractField fs "outp"
           let (fill, fs) := extractField fs "fill"
           -- `fill` alone, or `fill = true` / `fill = false` (finding F65, repaired: any value meant true)
-          let fillV : Except String Bool :=
-            match fill with
-            | none => .ok false
-            | some f =>
-              match f.expr with
-              | none => .ok true
-              | some (.lit (.bool b)) => .ok b
-              | some _ => .error "expected boolean literal"
-          match fillV with
+          match fillValue fill with
           | .error e => .error e
           | .ok fillB =>
           match fs with
